@@ -5,6 +5,7 @@ import (
 	"encoding/binary"
 	"encoding/json"
 	"fmt"
+	"github.com/akrennmair/updog/zzverif/ptk"
 	"hash/fnv"
 	"os"
 	"os/exec"
@@ -278,7 +279,7 @@ func c06InProcess(ctx *rt.Ctx, mode string, n int) []*rt.Violation {
 				seenClass[class] = true
 				c := c06Case{Mode: mode, N: n, Write: write, Torn: torn, Preload: pre, Image: img}
 				sig := c.sig()
-				if class == "short-file-crash" {
+				if class == "short-file-crash" && len(img) <= 3*c06Page { // the recorded class: bbolt's own first write torn
 					sig = c06ShortSig
 				}
 				vs = append(vs, rt.NewViolation("C06", "image", sig, c, "%s", viol))
@@ -423,7 +424,7 @@ func c06Process(ctx *rt.Ctx, big bool, n int) []*rt.Violation {
 					seenClass[class] = true
 					c := c06Case{Mode: mode, N: n, Write: k, Torn: torn, Preload: pre, Image: img}
 					sig := c.sig()
-					if class == "short-file-crash" {
+					if class == "short-file-crash" && len(img) <= 3*c06Page {
 						sig = c06ShortSig
 					}
 					vs = append(vs, rt.NewViolation("C06", "image", sig, c, "%s", viol))
@@ -434,6 +435,132 @@ func c06Process(ctx *rt.Ctx, big bool, n int) []*rt.Violation {
 			rt.Harnessf("kill loop does not terminate")
 		}
 	}
+}
+
+// c06Traced: the unmodified `updog create [-b]` under ptrace, killed (whole process group, SIGKILL) immediately before its
+// k-th system call that changes file content or names below the output directory or the temporary directory, for every
+// k until a run completes: crash points of the PROCESS, whoever issues the call (bbolt, a copy loop, a rename ...).
+// otherTmp: TMPDIR is on another file system than the output (a rename across them is not possible).
+func c06Traced(ctx *rt.Ctx, big bool, n int, otherTmp bool) []*rt.Violation {
+	bin := os.Getenv("VCHECK_UPDOG_BIN")
+	if bin == "" {
+		rt.Harnessf("VCHECK_UPDOG_BIN not set")
+	}
+	dir := ctx.TempDir("traced")
+	defer os.RemoveAll(dir)
+	tmp := dir
+	if otherTmp {
+		t, err := os.MkdirTemp("/tmp", "verif-c06-")
+		if err != nil {
+			rt.Harnessf("mkdtemp: %v", err)
+		}
+		defer os.RemoveAll(t)
+		tmp = t
+	}
+	csv := filepath.Join(dir, "in.csv")
+	var b bytes.Buffer
+	b.WriteString("v,k\n")
+	for i := 0; i < n; i++ {
+		fmt.Fprintf(&b, "%d,c\n", i%1200)
+	}
+	os.WriteFile(csv, b.Bytes(), 0o644)
+	mode := "traced-create"
+	args := []string{bin, "create"}
+	if big {
+		mode = "traced-create-big"
+		args = append(args, "-b")
+	}
+	if otherTmp {
+		mode += "-tmp-on-other-fs"
+	}
+	env := append(os.Environ(), "TMPDIR="+tmp)
+	run := func(out string, k int) ptk.Result {
+		r, err := ptk.Run(append(append([]string{}, args...), "-o", out, csv), env, []string{dir + "/", tmp + "/"}, k, filepath.Join(dir, "stdout"))
+		if err != nil {
+			rt.Harnessf("traced run: %v", err)
+		}
+		return r
+	}
+	full := filepath.Join(dir, "full.updog")
+	r0 := run(full, 0)
+	if r0.ExitCode != 0 {
+		rt.Harnessf("traced complete run failed (exit %d): %s", r0.ExitCode, r0.Output)
+	}
+	idx, err := ix.Open(full, false, nil)
+	if err != nil {
+		rt.Harnessf("complete index does not open: %v", err)
+	}
+	exp := &c06Expect{schema: schemaOf(idx)}
+	exp.probes, _ = c06Probe(idx, exp.schema)
+	idx.Close()
+	exp.complete, _ = os.ReadFile(full)
+	os.Remove(full)
+	var vs []*rt.Violation
+	seenClass := map[string]bool{}
+	out := filepath.Join(dir, "out.updog")
+	for k := 1; k <= r0.Mutations+50; k++ {
+		os.Remove(out)
+		// leftovers of the previous run in the temporary directory
+		if ents, err := os.ReadDir(tmp); err == nil {
+			for _, e := range ents {
+				if p := filepath.Join(tmp, e.Name()); p != csv && p != out {
+					os.RemoveAll(p)
+				}
+			}
+		}
+		os.WriteFile(csv, b.Bytes(), 0o644)
+		r := run(out, k)
+		if !r.Killed {
+			if r.ExitCode != 0 {
+				rt.Harnessf("traced run %d failed (exit %d): %s", k, r.ExitCode, r.Output)
+			}
+			ctx.Cov.Add("distinct_nontrivial", int64(k-1))
+			ctx.Cov.Add("histories", 1)
+			ctx.Cov.Sample(1, map[string]any{"mode": mode, "rows": n, "kill_points": k - 1, "calls_of_a_complete_run": trimCalls(r0.Calls, dir, tmp)})
+			return vs
+		}
+		ctx.Cov.Add("traced_sigkilled_processes", 1)
+		ctx.Cov.Add("crash_points", 1)
+		img, rerr := os.ReadFile(out)
+		if rerr != nil {
+			ctx.Cov.Add("images_absent", 1)
+			continue
+		}
+		for _, pre := range []bool{false, true} {
+			ctx.Cov.Add("evaluations", 1)
+			viol, class := c06Judge(ctx, img, exp, pre)
+			ctx.Cov.Add("images_"+class, 1)
+			ctx.Cov.SetAdd("outcomes", class)
+			if viol != "" && !seenClass[class] {
+				seenClass[class] = true
+				c := c06Case{Mode: mode, N: n, Write: k, Preload: pre, Image: img}
+				sig := c.sig()
+				if class == "short-file-crash" && len(img) <= 3*c06Page { // the recorded class: bbolt's own first write torn
+					sig = c06ShortSig
+				}
+				last := ""
+				if len(r.Calls) > 0 {
+					last = " (killed before: " + trimCalls(r.Calls[len(r.Calls)-1:], dir, tmp)[0] + ")"
+				}
+				vs = append(vs, rt.NewViolation("C06", "image", sig, c, "%s%s", viol, last))
+			}
+		}
+	}
+	rt.Harnessf("traced kill loop does not terminate")
+	return nil
+}
+
+func trimCalls(calls []string, dir, tmp string) []string {
+	var out []string
+	for i, c := range calls {
+		if i >= 40 {
+			out = append(out, fmt.Sprintf("... %d more", len(calls)-i))
+			break
+		}
+		c = strings.ReplaceAll(c, tmp+"/", "$TMPDIR/")
+		out = append(out, strings.ReplaceAll(c, dir+"/", "$DIR/"))
+	}
+	return out
 }
 
 type c06Args struct {
@@ -458,6 +585,8 @@ func c06Worker(ctx *rt.Ctx, job *rt.Job) []*rt.Violation {
 		return c06Process(ctx, false, a.N)
 	case "create-big":
 		return c06Process(ctx, true, a.N)
+	case "traced", "traced-big":
+		return c06Traced(ctx, a.Mode == "traced-big", a.N, a.Preload)
 	}
 	return c06InProcess(ctx, a.Mode, a.N)
 }
@@ -484,10 +613,20 @@ func c06Run(ctx *rt.Ctx) []*rt.Violation {
 			jobs = append(jobs, rt.Job{Name: mode, NShards: 1, Args: b})
 		}
 	}
+	// the unmodified binary under ptrace, killed before every file-changing system call; TMPDIR next to the output and on
+	// another file system (Preload doubles as that switch in the job arguments)
+	for _, mode := range []string{"traced", "traced-big"} {
+		for _, n := range []int{1001, 3} {
+			for _, other := range []bool{false, true} {
+				b, _ := json.Marshal(c06Args{Mode: mode, N: n, Preload: other})
+				jobs = append(jobs, rt.Job{Name: mode, NShards: 1, Args: b})
+			}
+		}
+	}
 	outs := rt.RunJobs(ctx, jobs, rt.SpawnOpt{})
 	vs := rt.Collect(ctx, outs, nil)
 	ctx.Cov.Note("sizes", ns)
-	ctx.Cov.Note("rule", "for every history (writer mode x size): the file content immediately before every write issued to the output file (all content changes go through bbolt's write function; the file is mapped read-only) and page-granular torn variants of multi-page writes are materialised and opened on demand and preloaded: the image must be rejected with an error or answer schema / every value count / every negated count / group-by per column exactly like the complete index; the same with a real `updog create [-b]` that SIGKILLs itself before its k-th write for every k; distinct_nontrivial = number of distinct crash points (write indexes)")
+	ctx.Cov.Note("rule", "for every history (writer mode x size): the file content immediately before every write issued to the output file (all content changes go through bbolt's write function; the file is mapped read-only) and page-granular torn variants of multi-page writes are materialised and opened on demand and preloaded: the image must be rejected with an error or answer schema / every value count / every negated count / group-by per column exactly like the complete index; the same with a real `updog create [-b]` that SIGKILLs itself before its k-th write for every k; and the unmodified `updog create [-b]` under ptrace, its process group killed before its k-th file-changing system call (write, pwrite, rename, unlink, truncate, creating open, copy_file_range, sendfile ... on files below the output or temporary directory) for every k, with TMPDIR next to the output and on another file system; distinct_nontrivial = number of distinct crash points (write indexes)")
 	ctx.Cov.Add("distinct_outcomes", int64(ctx.Cov.SetLen("outcomes")))
 	ctx.Assumef("process death only: un-synced page cache is not lost (the property speaks of the process dying); fdatasync and ftruncate are not separate crash points (truncate only appends zero pages)")
 	ctx.Assumef("bbolt's own transaction atomicity is trusted, and exercised by the torn-write images")
@@ -515,7 +654,7 @@ func c06Replay(ctx *rt.Ctx, v *rt.Violation) *rt.Violation {
 	viol, class := c06Judge(ctx, c.Image, exp, c.Preload)
 	if viol != "" {
 		sig := c.sig()
-		if class == "short-file-crash" {
+		if class == "short-file-crash" && len(c.Image) <= 3*c06Page {
 			sig = c06ShortSig
 		}
 		return rt.NewViolation("C06", "image", sig, c, "%s", viol)
